@@ -1,6 +1,7 @@
 package worlds
 
 import (
+	"math"
 	"fmt"
 	"math/rand"
 	"sort"
@@ -1169,6 +1170,39 @@ func pipelineXslices(r *R) {
 			return
 		}
 		r.Probe("flatten-aliased-slices")
+	}
+	// Equal / EqualFunc against iterator.Equal, over copies, prefixes, one changed item, the very
+	// same slice, overlapping views - and floats with a NaN, which is unequal to itself
+	{
+		pairs := [][2][]int{{xs, append([]int(nil), xs...)}, {xs, xs}, {xs, ys}}
+		if len(xs) > 0 {
+			ch := append([]int(nil), xs...)
+			ch[r.Choose(len(ch), "eq-change")]++
+			pairs = append(pairs, [2][]int{xs, ch}, [2][]int{xs, xs[:len(xs)-1]}, [2][]int{xs[1:], xs[:len(xs)-1]})
+		}
+		for _, p := range pairs {
+			want := iterator.Equal(iterator.Slice(p[0]), iterator.Slice(p[1]))
+			if got := xslices.Equal(p[0], p[1]); got != want {
+				r.Violate("C07", "xslices/Equal", "xslices.Equal(%v, %v) = %v, iterator.Equal says %v", p[0], p[1], got, want)
+				return
+			}
+			if got := xslices.EqualFunc(p[0], p[1], func(a, b int) bool { return a == b }); got != want {
+				r.Violate("C07", "xslices/EqualFunc", "xslices.EqualFunc(%v, %v, ==) = %v, iterator.Equal says %v", p[0], p[1], got, want)
+				return
+			}
+		}
+		fs := make([]float64, len(xs)+1)
+		for i, x := range xs {
+			fs[i] = float64(x)
+		}
+		fs[r.Choose(len(fs), "nan-at")] = math.NaN()
+		for _, p := range [][2][]float64{{fs, fs}, {fs, append([]float64(nil), fs...)}, {fs[:1], fs[:1]}} {
+			want := iterator.Equal(iterator.Slice(p[0]), iterator.Slice(p[1]))
+			if got := xslices.Equal(p[0], p[1]); got != want {
+				r.Violate("C07", "xslices/Equal/nan", "xslices.Equal(%v, %v) = %v, iterator.Equal says %v (NaN is not equal to itself)", p[0], p[1], got, want)
+				return
+			}
+		}
 	}
 	acc := 0
 	for _, x := range xs {
